@@ -52,9 +52,9 @@ macro_rules! c14_lattice {
     };
 }
 pub mod q {
-    c14_lattice! { n0: U0, 4; n1: U1, 6; n2: U2, 8; n15: U15, 34; n16: U16, 36; n17: U17, 38; n19: U19, 42; }
+    c14_lattice! { n0: U0, 4; n1: U1, 6; n2: U2, 8; n15: U15, 34; n16: U16, 36; n17: U17, 38; n20: U20, 44; }
 }
 pub mod t {
-    c14_lattice! { n3: U3, 10; n4: U4, 12; n5: U5, 14; n6: U6, 16; n7: U7, 18; n8: U8, 20; n9: U9, 22; n10: U10, 24; n11: U11, 26; n12: U12, 28; n13: U13, 30; n14: U14, 32; n18: U18, 40; n20: U20, 44;
+    c14_lattice! { n3: U3, 10; n4: U4, 12; n5: U5, 14; n6: U6, 16; n7: U7, 18; n8: U8, 20; n9: U9, 22; n10: U10, 24; n11: U11, 26; n12: U12, 28; n13: U13, 30; n14: U14, 32; n18: U18, 40; n19: U19, 42;
                    n31: U31, 66; n32: U32, 68; n33: U33, 70; }
 }
